@@ -90,20 +90,48 @@ theorem disconnect_destroys_every_fid (es : List FEv) (s : FS) (h : FS.init.run 
   have h0 := (inv_run _ _ es inv_init h).objs o ho
   obtain ⟨hsnap, hall⟩ := hq
   obtain ⟨q1, q2, q3, q4⟩ := hall o ho
+  have ht : (s.obj o).tbl = false := by
+    cases hc : (s.obj o).tbl with
+    | false => rfl
+    | true => have := h0.tblSnap hc [] hsnap; cases this
   have hd : (s.obj o).destroyed = true := by
-    rcases h0.cov with c | c | c | c | c
+    rcases h0.alive q1 ht with c | c | c
+    · omega
+    · omega
     · exact c
-    · omega
-    · omega
-    · omega
-    · rcases h0.tblSnap c [] hsnap with m | m | m
-      · cases m
-      · omega
-      · exact m
   have := h0.once
   rw [hd] at this
   simp only [if_true] at this
   omega
+
+/-- The file server is never told that a fid is destroyed while a request holds it: from the
+    moment destroy() has marked it (and ever after — every later state is reachable too) no
+    request owns a reference to it, and `FidGet` gives none out (`dead_fid_is_not_handed_out`).
+    In particular a file the Unix file server opens for a request is never opened on a fid whose
+    FidDestroy has already run. -/
+theorem never_destroyed_under_a_request (es : List FEv) (s : FS) (h : FS.init.run es = some s) (o : Nat)
+    (ho : o < s.n) (hd : (s.obj o).destroyed = true ∨ 1 ≤ (s.obj o).calls ∨ 1 ≤ (s.obj o).nd) :
+    (s.obj o).holds = 0 ∧ (s.obj o).tbl = false ∧ (s.obj o).ref = 0 := by
+  have h0 := (inv_run _ _ es inv_init h).objs o ho
+  have hdes : (s.obj o).destroyed = true := by
+    rcases hd with c | c | c
+    · exact c
+    · have := h0.once; split at this
+      · assumption
+      · omega
+    · have := h0.once; split at this
+      · assumption
+      · omega
+  obtain ⟨a, b⟩ := h0.dead (Or.inr (Or.inr hdes))
+  refine ⟨a, b, ?_⟩
+  have := h0.refEq
+  rw [a, b] at this
+  simpa using this
+
+/-- a fid whose last reference is gone is not handed out again: `FidGet` leaves it alone -/
+theorem dead_fid_is_not_handed_out (s : FS) (o : Nat) (ho : o < s.n) (hr : (s.obj o).ref ≤ 0) :
+    s.step (.get o) = some s := by
+  simp [FS.step, ho, hr]
 
 /-- A fid that is still being created (its Tattach, Tauth or Twalk has not finished) is never
     reported destroyed under the implementation's feet, disconnect or not, and stays in the table. -/
@@ -117,17 +145,20 @@ theorem no_destroy_while_being_created (es : List FEv) (s : FS) (h : FS.init.run
   simp only [Bool.false_eq_true, if_false] at this
   exact ⟨by omega, by omega, c, d⟩
 
-/-- A valid fid (the table holds its reference) is in the table and not reported destroyed as
-    long as the connection has not been torn down. -/
+/-- A valid fid (the table holds its reference) has not been reported destroyed, and is in the
+    table as long as the connection has not been torn down. -/
 theorem valid_fid_alive_while_open (es : List FEv) (s : FS) (h : FS.init.run es = some s) (o : Nat)
-    (ho : o < s.n) (ht : (s.obj o).tbl = true) (hs : s.snap = none) :
-    s.inpool o ∧ (s.obj o).nd = 0 ∧ (s.obj o).destroyed = false := by
+    (ho : o < s.n) (ht : (s.obj o).tbl = true) :
+    (s.obj o).nd = 0 ∧ (s.obj o).destroyed = false ∧ (s.snap = none → s.inpool o) := by
   have h0 := (inv_run _ _ es inv_init h).objs o ho
-  obtain ⟨a, _, c⟩ := h0.tblOpen ht hs
+  have c : (s.obj o).destroyed = false := by
+    cases hd : (s.obj o).destroyed with
+    | false => rfl
+    | true => have := (h0.dead (Or.inr (Or.inr hd))).2; rw [ht] at this; cases this
   have := h0.once
   rw [c] at this
   simp only [Bool.false_eq_true, if_false] at this
-  exact ⟨a, by omega, c⟩
+  exact ⟨by omega, c, fun hs => h0.tblOpen ht hs⟩
 
 /-- the reference count is what the owners account for: requests' references plus the table's -/
 theorem refcount_is_owners (es : List FEv) (s : FS) (h : FS.init.run es = some s) (o : Nat) (ho : o < s.n) :
@@ -174,7 +205,7 @@ theorem fid_teardown_never_stuck (s : FS) (hc : s.closed = true) (hnq : ¬ s.qui
         exact hne ⟨o, ho, hn⟩
       obtain ⟨o, ho, hne⟩ := hex
       by_cases h1 : 1 ≤ (s.obj o).holds
-      · exact ⟨.dec o false, by simp [FS.step, ho, h1]⟩
+      · exact ⟨.dec o, by simp [FS.step, ho, h1]⟩
       by_cases h2 : 1 ≤ (s.obj o).dyA
       · refine ⟨.unpool o, ?_⟩
         simp only [FS.step]
@@ -196,31 +227,36 @@ theorem fid_teardown_never_stuck (s : FS) (hc : s.closed = true) (hnq : ¬ s.qui
       omega
 
 /-! non-vacuity: a fid is created and retained; a request is using it when the client disconnects;
-    Conn.close destroys it, the request's release afterwards does not destroy it again; the end
-    state is quiescent. -/
+    Conn.close takes the table's reference away, the request's release afterwards is the last one
+    and destroys the fid; the end state is quiescent. -/
 def exSched : List FEv :=
-  [.new 5, .retain 0, .dec 0 false, .look 5 (some 0), .get 0, .closeDone, .snapshot [0], .visit, .dstr 0, .call 0,
-   .dec 0 false]
+  [.new 5, .retain 0, .dec 0, .look 5 (some 0), .get 0, .closeDone, .snapshot [0], .visit, .dec 0,
+   .dec 0, .unpool 0, .dstr 0, .call 0]
 
 example : (FS.init.run exSched).map (fun s => ((s.obj 0).nd, (s.obj 0).ref, (s.obj 0).holds, s.snap, s.n)) =
-    some (1, 1, 0, some [], 1) := by decide
+    some (1, 0, 0, some [], 1) := by decide
 
 instance (s : FS) : Decidable s.quiescent := by unfold FS.quiescent; infer_instance
 
 example : (FS.init.run exSched).all (fun s => decide s.quiescent) = true := by decide
 
-/-! ### what the code did before two repairs, and why the theorems above could not be proved of it
+/-! ### what the code did before three repairs, and why the theorems above could not be proved of it
 
     F-29: `retain` tested `conn.done` before it took the fid lock (`retainStale`: the increment
     made on the strength of a test that is out of date).  F-30: `DecRef` deleted the table entry
-    by number (`unpoolByNumber`).  With either, a schedule ends quiescent with a fid that was
-    never reported destroyed; the second also makes a valid fid unknown.  Both schedules were
-    replayed on the real code (witness/life_test.go) before it was repaired. -/
+    by number (`unpoolByNumber`), and `FidGet` handed out a fid whose last reference was gone
+    (`getDying`).  F-31: `Conn.close` called destroy() on every fid of its copy whether or not a
+    request was using it (`visitDestroy`).  With the first two a schedule ends quiescent with a fid
+    that was never reported destroyed (the second also makes a valid fid unknown); with the third
+    the file server is told that a fid is destroyed while a request holds it.  All three schedules
+    were replayed on the real code (witness/) before it was repaired. -/
 
 inductive OldEv where
   | ev (e : FEv)
   | retainStale (o : Nat)
+  | getDying (o : Nat)
   | unpoolByNumber (o : Nat)
+  | visitDestroy
 
 def stepOld (s : FS) : OldEv → Option FS
   | .ev e => s.step e
@@ -229,11 +265,21 @@ def stepOld (s : FS) : OldEv → Option FS
     if o < s.n ∧ x.pending = true ∧ 1 ≤ x.holds then
       some (setO s o { x with ref := x.ref + 1, tbl := true, pending := false })
     else none
+  | .getDying o =>
+    let x := s.obj o
+    if o < s.n ∧ x.pending = false then some (setO s o { x with ref := x.ref + 1, holds := x.holds + 1 }) else none
   | .unpoolByNumber o =>
     let x := s.obj o
     if o < s.n ∧ 1 ≤ x.dyA then
       some { (setO s o { x with dyA := x.dyA - 1, dyB := x.dyB + 1 }) with pool := updP s.pool x.num none }
     else none
+  | .visitDestroy =>
+    match s.snap with
+    | some (o :: rest) =>
+      let x := s.obj o
+      if x.pending then some { s with snap := some rest }
+      else some { (setO s o { x with dyB := x.dyB + 1 }) with snap := some rest }
+    | _ => none
 
 def runOld (s : FS) : List OldEv → Option FS
   | [] => some s
@@ -242,7 +288,7 @@ def runOld (s : FS) : List OldEv → Option FS
 /-- F-29: the client disconnects between retain's test and its increment -/
 theorem stale_retain_leaks_a_fid :
     (runOld FS.init [.ev (.new 5), .ev .closeDone, .ev (.snapshot [0]), .ev .visit, .retainStale 0,
-      .ev (.dec 0 false)]).map (fun s => (decide s.quiescent, (s.obj 0).nd, (s.obj 0).destroyed)) =
+      .ev (.dec 0)]).map (fun s => (decide s.quiescent, (s.obj 0).nd, (s.obj 0).destroyed)) =
     some (true, 0, false) := by decide
 
 /-- F-30: a request takes a reference on a fid whose Tclunk has dropped the last one; its own
@@ -250,16 +296,24 @@ theorem stale_retain_leaks_a_fid :
     lookup of number 5 finds nothing although fid 5 is valid, and at the end of the disconnect
     object 1 has never been reported destroyed -/
 theorem unpool_by_number_loses_a_valid_fid :
-    (runOld FS.init [.ev (.new 5), .ev (.retain 0), .ev (.dec 0 false),
-      .ev (.look 5 (some 0)), .ev (.get 0), .ev (.dec 0 true), .ev (.dec 0 false),
-      .ev (.look 5 (some 0)), .ev (.get 0), .ev (.dec 0 false),
+    (runOld FS.init [.ev (.new 5), .ev (.retain 0), .ev (.dec 0),
+      .ev (.look 5 (some 0)), .ev (.get 0), .ev (.release 0), .ev (.dec 0), .ev (.dec 0),
+      .ev (.look 5 (some 0)), .getDying 0, .ev (.dec 0),
       .unpoolByNumber 0, .ev (.dstr 0), .ev (.call 0),
-      .ev (.new 5), .ev (.retain 1), .ev (.dec 1 false),
+      .ev (.new 5), .ev (.retain 1), .ev (.dec 1),
       .unpoolByNumber 0, .ev (.dstr 0),
       .ev (.look 5 none),
       .ev .closeDone, .ev (.snapshot []), ]).map
       (fun s => (decide s.quiescent, (s.obj 1).tbl, s.pool 5, (s.obj 1).nd, (s.obj 0).nd)) =
     some (true, true, none, 0, 1) := by decide
+
+/-- F-31: a request is using a fid when the client disconnects: Conn.close tells the file server
+    that the fid is destroyed while the request still holds it (and whatever the request makes
+    the file server open afterwards is opened on a destroyed fid) -/
+theorem close_destroys_under_a_request :
+    (runOld FS.init [.ev (.new 5), .ev (.retain 0), .ev (.dec 0), .ev (.look 5 (some 0)), .ev (.get 0),
+      .ev .closeDone, .ev (.snapshot [0]), .visitDestroy, .ev (.dstr 0), .ev (.call 0)]).map
+      (fun s => ((s.obj 0).nd, (s.obj 0).holds)) = some (1, 1) := by decide
 
 end fids
 
